@@ -29,7 +29,7 @@ def set_intersect_merge_np(const uint32[:] left_array, const uint32[:] right_arr
     cdef uint32 left, right
     cdef int left_len = left_array.shape[0]
     cdef int right_len = right_array.shape[0]
-    if left_len == 0 and right_len == 0:
+    if left_len == 0 or right_len == 0:
         return numpy.empty(0, dtype=numpy.uint32)
 
     left_ptr = 0
